@@ -544,7 +544,7 @@ harness! {
 }
 
 harness! {
-    /// kind=bounded tier=thorough bound="every CStr std builds from a byte string of length 1..=5, all byte values (content 0..=4 bytes, valid and invalid UTF-8), against CStr::to_str itself"
+    /// kind=bounded tier=quick bound="every CStr std builds from a byte string of length 1..=5, all byte values (content 0..=4 bytes, valid and invalid UTF-8), against CStr::to_str itself"
     #[kani::unwind(9)]
     fn c20_cstr_to_str_vs_std(s) {
         let raw: [u8; 5] = s.bytes();
@@ -556,6 +556,10 @@ harness! {
         if let (Ok(ks), Ok(es)) = (&k, &e) {
             chk!(s, same_str(ks, es), "C20.cstr.to_str.same_str_as_std");
         }
+        if let (Err(ke), Err(ee)) = (&k, &e) {
+            chk!(s, ke.0.valid_up_to() == ee.valid_up_to() && ke.0.error_len() == ee.error_len(), "C20.cstr.to_str.same_utf8_error_as_std");
+        }
+        cov!(s, matches!(&e, Err(x) if x.error_len().is_none()), "C20.cover.cstr_to_str_truncated_sequence_at_end");
         cov!(s, c.to_bytes().len() == 4 && e.is_ok() && raw[0] >= 0xF0, "C20.cover.cstr_to_str_4byte_char");
         cov!(s, c.to_bytes().len() == 4 && e.is_err(), "C20.cover.cstr_to_str_4_invalid");
     }
